@@ -158,7 +158,7 @@ def _subst_captures(x, env_local, caps, by_ref):
 
 def _next_fn(item_ty, iter_ty):
     return {'k': 'const', 'ty': f'fn(&mut {iter_ty}) -> Option<{item_ty}> {{Iterator::next}}',
-            'fn': {'path': 'std::iter::Iterator::next', 'full': f'<{iter_ty} as std::iter::Iterator>::next', 'res': 'std::iter::Iterator::next',
+            'fn': {'path': 'std::iter::Iterator::next', 'full': f'<{iter_ty} as std::iter::Iterator>::next', 'res': f'<{iter_ty} as std::iter::Iterator>::next',
                    'trait': 'std::iter::Iterator', 'arg0': iter_ty, 'local': False, 'res_local': False}}
 
 
